@@ -40,6 +40,12 @@ def reward_st(family):
         return st.floats(-1e6, 1e6, allow_nan=False, allow_infinity=False, width=64)
     if family == "Fpos":
         return st.floats(0, 1e6, allow_nan=False, allow_infinity=False, width=64)
+    if family == "T":      # tiny integer range: equal means and exact ties are common
+        return st.integers(0, 2)
+    if family == "S":      # small range around the binarizer thresholds
+        return st.integers(-4, 12).map(lambda k: k / 2.0)
+    if family == "Sint":
+        return st.integers(-2, 6)
     if family == "B":
         return st.integers(0, 1)
     if family == "Bf":
